@@ -5,13 +5,15 @@ from fractions import Fraction as Fr
 
 RULE = ('quadratics/cubics/quartics built from prescribed real roots and complex pairs (relative separation >= 1e-3, magnitudes within '
         '1e6 of each other, overall scales 1e-6..1e6), integer coefficients |c|<=1000, leading coefficients 1, 1e-4, 1e-8, 1e-16, 1e-300, 0; '
-        'implementation compared (a) with the Float instantiation of the Lean model (counts exact, values to 64 ulps) and (b) with an exact '
+        'implementation compared (a) with the Float instantiation of the Lean model (quadratic/cubic/reductions: counts exact, values to 64 ulps; the whole quartic '
+        'solver `solve.quartic_full` and `factor_quartic_inner` on general quartics incl. magnitudes that trigger the K_Q/K_C rescaling: bit-for-bit) and (b) with an exact '
         'oracle on the very double coefficients: Sturm isolation of the real roots over Q - every returned value must have a backward-stable '
         'residual, at most `degree` values, every separated real root returned exactly once; ITP: result within epsilon of the sign change '
         'of a monotone cubic. non-trivial = distinct coefficient tuple')
 KERNEL_DEPS = []
-UNPROVED = ['the general quartic path (LDL^T factorisation, rescaling constants K_Q, K_C, Newton polishing) is not transcribed: decided by the '
-            'exact oracle only', 'all float-level claims (overflow guards, negligible leading coefficient)']
+UNPROVED = ['the general quartic path (LDL^T factorisation, rescaling constants K_Q, K_C, Newton polishing) IS transcribed (Kurbo/Quartic.lean) and compared '
+            'bit-for-bit with the crate; its theorems (Proofs/C15Q.lean) are in exact arithmetic and assume an exact resolvent root: the accuracy of the '
+            'float path is decided by the exact oracle only', 'all float-level claims (overflow guards, negligible leading coefficient)']
 ASSUMPTIONS = ['real cube root / sqrt / atan2 / sin / cos laws for the cubic theorems (over the reals)']
 MAKERS = {}
 HEAVY_JUDGE = True
@@ -163,6 +165,63 @@ def itp(coefs, a, b, eps, n0, k1):
     return Case(line, 'IF', judge, 'itp', 'oracle')
 
 
+def _same_tokens(i, f):
+    """bit-for-bit: same tokens (count, NONE, every double by its bit pattern; nan == nan)"""
+    return i.split() == f.split()
+
+
+@maker(MAKERS)
+def quartic_full_model(coefs, stratum):
+    """transcription of the WHOLE of solve_quartic (reductions, LDL^T factorisation, Newton polishing, K_Q / K_C rescaling retries):
+    impl vs the Float instantiation of `Kurbo.solveQuartic` - same number of values and every value bit-for-bit"""
+    line = f'solve.quartic_full {H(*coefs)}'
+
+    def judge(o):
+        i, f = o['I'][0], o['F'][0]
+        if engine_error(i, f):
+            return f'engine error {i} / {f}'
+        return None if _same_tokens(i, f) else f'impl != model@Float (bitwise) impl={i} model={f}'
+    return Case(line, 'IF', judge, stratum, 'corr-F')
+
+
+@maker(MAKERS)
+def quartic_factor_model(abcd, rescale, stratum):
+    """transcription of factor_quartic_inner(a, b, c, d, rescale): impl vs `Kurbo.factorQuarticInner` at Float - the same branch
+    (NONE / a pair of quadratics) and the four coefficients bit-for-bit"""
+    line = f'solve.factor_quartic {H(*abcd)} {int(rescale)}'
+
+    def judge(o):
+        i, f = o['I'][0], o['F'][0]
+        if engine_error(i, f):
+            return f'engine error {i} / {f}'
+        return None if _same_tokens(i, f) else f'impl != model@Float (bitwise) impl={i} model={f}'
+    return Case(line, 'IF', judge, stratum, 'corr-F')
+
+
+@maker(MAKERS)
+def cbrt_model(x):
+    """f64::cbrt of the toolchain (compiler_builtins' correctly rounded cbrt) vs the model's `floatCbrt`: bit-for-bit"""
+    line = f'f.cbrt {H(x)}'
+
+    def judge(o):
+        i, f = o['I'][0], o['F'][0]
+        if engine_error(i, f):
+            return f'engine error {i} / {f}'
+        return None if _same_tokens(i, f) else f'cbrt: impl != model@Float impl={i} model={f}'
+    return Case(line, 'IF', judge, 'cbrt', 'corr-F')
+
+
+def general_quartic_cases(co, stratum):
+    """the correspondence cases of one quartic (coefficients lowest first): the full solver, and factor_quartic_inner on the monic
+    coefficients (as solve_quartic forms them) with and without the K_C rescaling"""
+    yield quartic_full_model(co, stratum)
+    if co[4] != 0.0:
+        abcd = [co[3] / co[4], co[2] / co[4], co[1] / co[4], co[0] / co[4]]
+        if all(math.isfinite(x) for x in abcd):
+            yield quartic_factor_model(abcd, 0, stratum + '/factor')
+            yield quartic_factor_model(abcd, 1, stratum + '/factor-rescaled')
+
+
 def rnd_root(rng, scale):
     return Fr(rng.choice([-1, 1]) * rng.uniform(0.05, 20.0) * scale).limit_denominator(10 ** 6)
 
@@ -258,6 +317,39 @@ def generate(rng, tier):
         yield solve_model([0.0, 0.0, 0.0], 'all-zero')
         yield solve_model([0.0, 0.0, 0.0, 0.0], 'all-zero')
         yield solve_model([float(rng.randint(1, 9)), 0.0, 0.0], 'constant')
+        # ---- general quartic path, implementation vs Float model (C15Q): bit-for-bit
+        scale = 10.0 ** rng.randint(-6, 6) if rng.random() < 0.3 else 1.0
+        co, _ = poly_from(rng, 4, scale)
+        yield from general_quartic_cases(co, 'general-prescribed-roots')
+        yield from general_quartic_cases([float(rng.randint(-1000, 1000)) for _ in range(5)], 'general-integer-coeffs')
+        cs = [float(rng.randint(-40, 40)) for _ in range(5)]
+        for k in range(1, 4):
+            if rng.random() < 0.5:
+                cs[k] = 0.0
+        if cs[4] == 0.0:
+            cs[4] = 1.0
+        yield from general_quartic_cases(cs, 'general-sparse')
+        yield from general_quartic_cases([lead * c for c in prod], 'general-product-of-integer-quadratics')
+        if gd != 0.0:
+            yield from general_quartic_cases([gd, gc, gb, ga, 1.0], 'general-resolvent-g-zero')
+        # equal linear coefficients of the two quadratic factors (d_2 = 0 up to rounding: the `d_2 == 0` branch and the noise test)
+        ep, eq, er = float(rng.randint(-9, 9)), float(rng.randint(-9, 9)), float(rng.randint(-9, 9))
+        yield from general_quartic_cases([eq * er, ep * (eq + er), eq + er + ep * ep, 2 * ep, 1.0], 'general-equal-linear-factors')
+        # roots scaled by 10^e: coefficient c_k scaled by t^(4-k); |e| >= 60 makes the plain attempt overflow/underflow (K_Q retries, K_C rescaling)
+        co, _ = poly_from(rng, 4, 1.0)
+        e10 = rng.choice([-80, -70, -60, -40, 30, 40, 50, 60, 70, 75, 76, 77])
+        try:
+            big = [co[k] * (10.0 ** e10) ** (4 - k) for k in range(5)]
+        except OverflowError:
+            big = None
+        if big and all(math.isfinite(x) for x in big):
+            yield from general_quartic_cases(big, 'general-scaled-roots')
+        yield from general_quartic_cases([rng.uniform(-1, 1) * 10.0 ** rng.randint(-150, 150) for _ in range(5)], 'general-wild-exponents-150')
+        yield from general_quartic_cases([rng.uniform(-1, 1) * 10.0 ** rng.randint(-30, 30) for _ in range(5)], 'general-wild-exponents-30')
+        lo3, _ = poly_from(rng, 3, 1.0)
+        yield from general_quartic_cases(lo3 + [rng.choice([1e-4, 1e-8, 1e-16, 1e-100, 1e-300])], 'general-small-leading')
+        xb = rng.uniform(-1, 1) * 10.0 ** rng.randint(-300, 300) if rng.random() < 0.5 else rng.uniform(-1000, 1000)
+        yield cbrt_model(xb)
         # ITP on a monotone cubic x^3 + p x + q (p >= 0) shifted
         p, q = rng.uniform(0.0, 5.0), rng.uniform(-5.0, 5.0)
         co = [q, p, 0.0, 1.0]
